@@ -1,17 +1,23 @@
 import Zc.Model.Basic
 import Zc.Gen.Const
 import Zc.Gen.Shutdown
-/-! # Shutdown (`asyncio.py:223-231`, `_core.py:608-665`, `_engine.py:122-153`, `browser.py:369-375,438,465,719-726`)
+/-! # Shutdown (`asyncio.py:223-231`, `_core.py:287-296,640-690`, `_engine.py:122-156`, `browser.py:369-375,438,465,719-726,798-811`)
 
 The host as a block machine over the flags that decide whether anything can leave it: `done`, transports
-closed, which timers are armed, which tasks are pending — and **any number of `async_close()` / `close()`
-calls in progress at once**, each with its own program counter, interleaved at block boundaries.
+closed, which timers are armed, which tasks are pending, whether the instance owns a loop thread and whether
+that loop still runs — and **any number of `async_close()` / `close()` calls in progress at once**, each with
+its own program counter, interleaved at block boundaries.
 What a block *would* emit is part of the block (an arbitrary input: the theorems quantify over it);
-whether it *does* is decided by the generated gates (`Gen.Shutdown.*`).  The places where the close path
-can raise are explicit outcomes (`Out.raised`): `NotRunningException` out of `async_wait_for_start`
-(an API call on a done instance; and — only if `async_close` did not suppress it, which since fix 25230c1 it does —
-a close that was waiting for start-up while another close finished) and
-`CancelledError` (the task awaiting `async_close` is cancelled at one of its suspension points).
+whether it *does* is decided by the generated gates (`Gen.Shutdown.*`).  What each step of the close path
+cancels, closes, joins or forgets is read off the source by statement-level leaves and **used** here, so the
+executable model follows the tree and the `GenFacts.Shutdown.*_holds` lemmas are what the proofs need.
+The places where the close path can raise are explicit outcomes (`Out.raised`):
+`NotRunningException` out of `async_wait_for_start` (an API call on a done instance; and — only if
+`async_close` did not suppress it, which since fix 25230c1 it does — a close that was waiting for start-up
+while another close finished); `CancelledError` (the task awaiting `async_close` is cancelled at one of its
+suspension points); `RuntimeError` out of `Thread.join()` when sync `close()` runs on the callback thread of a
+browser it has to join (finding D30); `concurrent.futures.TimeoutError` out of `shutdown_loop` on a loop that
+another sync `close()` has just stopped (finding D32).
 No Mathlib (compiled into `zcdriver`). -/
 namespace Zc.Shutdown
 open Zc
@@ -19,6 +25,10 @@ open Zc
 /-- exceptions that reach the *caller* of a close / API call -/
 inductive Exc where
   | notRunning | cancelled
+  /-- `RuntimeError("cannot join current thread")` out of `ServiceBrowser.cancel()` (D30) -/
+  | runtimeError
+  /-- `concurrent.futures.TimeoutError` out of `shutdown_loop()` (`_utils/asyncio.py:121-131`) on a stopped loop (D32) -/
+  | timeout
   deriving DecidableEq, Repr
 
 /-- what can leave the host -/
@@ -26,7 +36,7 @@ inductive Out where
   | send        -- any datagram handed to a transport
   | goodbye     -- the unregister-all datagram (TTL 0 for every registered service)
   | callback    -- ServiceListener / browser handler / lookup listener invoked
-  | raised (e : Exc)   -- an exception delivered to the caller of `async_close` / an API call (not to the loop)
+  | raised (e : Exc)   -- an exception delivered to the caller of `async_close` / `close` / an API call (not to the loop)
   | loopError          -- an exception escaping a timer / task callback into the event loop's exception handler
   deriving DecidableEq, Repr
 
@@ -44,6 +54,14 @@ structure Browser where
   timer : Bool
   /-- registered with the record manager -/
   listening : Bool
+  /-- the thread-based `ServiceBrowser`: state changes are put into a queue on the loop and delivered to the listener by
+  the browser's own thread -/
+  threaded : Bool := false
+  /-- in `Zeroconf.browsers` (made by `Zeroconf.add_service_listener`; always thread-based): `Zeroconf._close()` cancels
+  **and joins** it -/
+  zcTracked : Bool := false
+  /-- state changes sitting in the queue of a thread-based browser, not yet delivered -/
+  queued : Nat := 0
   deriving DecidableEq, Repr
 
 /-- program counter of one `async_close()` / `close()` call -/
@@ -52,13 +70,17 @@ inductive CStage where
   | waitingStart
   /-- browsers cancelled, registry emptied, first goodbye out, `left` goodbye sends to go -/
   | unregistering (left : Nat)
-  /-- (sync `close()`) `_close()` ran in the caller's thread, `engine.close()` not yet on the loop -/
+  /-- (sync `close()`) `_close()` ran in the caller's thread, `engine.close()` not yet entered -/
   | doneSet
-  /-- `_async_shutdown` done, suspended in `sleep(0)` -/
+  /-- `_async_shutdown` done on the loop, suspended in `sleep(0)` -/
   | shutdown
+  /-- (sync) `engine.close()` has returned, `_shutdown_threads()` not yet entered -/
+  | engineClosed
+  /-- (sync) `_shutdown_threads()` has found a loop thread and is about to stop the loop and join it -/
+  | stopping
   /-- returned normally -/
   | returned
-  /-- raised to its caller (`NotRunningException`, `CancelledError`) -/
+  /-- raised to its caller (`NotRunningException`, `CancelledError`, `RuntimeError`, `TimeoutError`) -/
   | aborted
   deriving DecidableEq, Repr
 
@@ -69,6 +91,8 @@ structure Close where
   deriving DecidableEq, Repr
 
 def Close.isReturned (c : Close) : Bool := match c.stage with | .returned => true | _ => false
+
+def Close.isStopping (c : Close) : Bool := match c.stage with | .stopping => true | _ => false
 
 structure Host where
   /-- `Zeroconf.done` -/
@@ -94,6 +118,10 @@ structure Host where
   announcing : Nat
   /-- every close call made so far, in call order (entries are never removed, so indices are stable) -/
   closes : List Close
+  /-- `Zeroconf._loop_thread is not None`: the instance was created without a running loop and runs its own in a thread -/
+  loopThread : Bool := false
+  /-- `self.loop.is_running()` -/
+  loopRunning : Bool := true
   deriving DecidableEq, Repr
 
 /-- API calls that need a running instance -/
@@ -128,22 +156,35 @@ inductive Block where
   | startUp
   /-- `async_register_service` / `async_request` called: `async_wait_for_start` first -/
   | apiCall (k : Api)
-  /-- a browser is created (`AsyncServiceBrowser(...)` / `async_add_service_listener`): it registers as a listener and the
-  cached records of its types are replayed to it (`replay` callbacks) — there is no `done` test on this path -/
-  | apiBrowse (tracked : Bool) (replay : Nat)
+  /-- a browser is created (`AsyncServiceBrowser(...)` / `async_add_service_listener` / `ServiceBrowser(...)` /
+  `add_service_listener`): it registers as a listener and the cached records of its types are replayed to it (`replay`
+  callbacks; for a thread-based browser they go into its queue) — there is no `done` test on this path -/
+  | apiBrowse (tracked : Bool) (replay : Nat) (threaded : Bool := false) (zcTracked : Bool := false)
+  /-- the thread of thread-based browser `i` takes one state change off its queue and calls the listener -/
+  | browserThread (i : Nat)
   /-- a new close call.  async: wait for start if needed, cancel tracked browsers; both:
-  `generate_unregister_all_services` + first goodbye -/
+  `generate_unregister_all_services` + first goodbye (sync: only while the loop runs) -/
   | closeCall (sync : Bool)
   /-- close `i`, suspended waiting for start-up, resumes (`timedOut`: by its own 1 s timeout) -/
   | closeWake (i : Nat) (timedOut : Bool)
   /-- close `i`, 125 ms later: the next goodbye -/
   | closeGoodbye (i : Nat)
-  /-- (sync close `i`) `_close()` in the caller's thread: `done := true` -/
-  | closeMarkDone (i : Nat)
-  /-- close `i`: async — `_close` (done := true) and `_async_shutdown`; sync — `_async_shutdown` -/
+  /-- (sync close `i`) `_close()` in the caller's thread: cancel and join the browsers in `Zeroconf.browsers`,
+  `done := true`.  `caller = some j`: the calling thread is the callback thread of browser `j` (the listener called
+  `close()`); `none`: any other non-loop thread -/
+  | closeMarkDone (i : Nat) (caller : Option Nat := none)
+  /-- close `i`: async — `Zeroconf._async_close` up to the `sleep(0)` of `engine._async_close`: `_close()` and
+  `_async_shutdown()`; sync — `engine.close()` entered from the caller's thread: nothing if the loop does not run,
+  otherwise `_async_close()` is submitted to the loop and this block is its first step, `_async_shutdown()` -/
   | closeShutdown (i : Nat)
-  /-- close `i` after `sleep(0)`: cleanup timer cancelled, waiters notified; the call returns -/
+  /-- close `i` after `sleep(0)`: cleanup timer cancelled, waiters notified; an async call returns, a sync call is back
+  from `engine.close()` -/
   | closeFinish (i : Nat)
+  /-- (sync close `i`) `_shutdown_threads()`, first half: `notify_all()`; no loop thread → the call returns -/
+  | closeThreadsCheck (i : Nat)
+  /-- (sync close `i`) `_shutdown_threads()`, second half: `shutdown_loop(loop)` (raises `TimeoutError` when the loop
+  no longer runs), join the thread, forget it; the call returns -/
+  | closeThreadsStop (i : Nat)
   /-- the task awaiting async close `i` is cancelled at the suspension point it is parked at -/
   | closeAbort (i : Nat)
   deriving DecidableEq, Repr
@@ -151,15 +192,60 @@ inductive Block where
 /-- `async_send`: nothing leaves once `done` -/
 def gated (h : Host) (outs : List Out) : List Out := if Gen.Shutdown.send_blocked h.done then [] else outs
 
-/-- record updates reach every listening browser and every lookup in progress -/
+/-- record updates reach every listening browser and every lookup in progress; loop-based browsers call their listener
+in the block … -/
 def notify (h : Host) (updates : Bool) : List Out :=
-  if updates then (h.browsers.filter (·.listening)).map (fun _ => Out.callback) ++ List.replicate h.lookups Out.callback else []
+  if updates then (h.browsers.filter (fun b => b.listening && !b.threaded)).map (fun _ => Out.callback) ++ List.replicate h.lookups Out.callback else []
 
+/-- … thread-based ones get the state change into their queue -/
+def enqueue (bs : List Browser) (updates : Bool) : List Browser :=
+  if updates then bs.map (fun b => if b.listening && b.threaded then { b with queued := b.queued + 1 } else b) else bs
+
+/-- `_ServiceBrowserBase._async_cancel` on one browser: `done`, `query_scheduler.stop()` (which cancels `_next_run`),
+`zc.async_remove_listener(self)` — each statement a translated leaf -/
+def asyncCancel (b : Browser) : Browser :=
+  { b with cancelled := true,
+           timer := if Gen.Shutdown.browser_cancel_stops_scheduler && Gen.Shutdown.scheduler_stop_cancels_timer then false else b.timer,
+           listening := if Gen.Shutdown.browser_cancel_removes_listener then false else b.listening }
+
+/-- `async_remove_all_service_listeners` of `AsyncZeroconf.async_close` (translated: the call is there) -/
 def cancelTracked (bs : List Browser) : List Browser :=
-  bs.map (fun b => if b.tracked then { b with cancelled := true, timer := false, listening := false } else b)
+  if Gen.Shutdown.close_cancels_tracked_browsers then bs.map (fun b => if b.tracked then asyncCancel b else b) else bs
 
 def setTimer (bs : List Browser) (i : Nat) (v : Bool) : List Browser :=
   bs.mapIdx (fun j b => if j = i then { b with timer := v } else b)
+
+/-- does `ServiceBrowser.cancel()` wait for the thread (sentinel put into the queue, `join()`)? -/
+def cancelJoins : Bool := Gen.Shutdown.thread_cancel_signals && Gen.Shutdown.thread_cancel_joins
+
+/-- `Zeroconf.remove_service_listener` on one browser of `Zeroconf.browsers`, called from a thread that is not the
+browser's own: `cancel()` = sentinel + `_async_cancel` on the loop + `join()` — the thread delivers what was queued
+before the sentinel and ends — then `del self.browsers[listener]` -/
+def syncCancel (b : Browser) : Browser :=
+  { asyncCancel b with queued := if cancelJoins then 0 else b.queued,
+                       zcTracked := if Gen.Shutdown.remove_listener_forgets then false else b.zcTracked }
+
+/-- what cancelling the browsers of `Zeroconf.browsers` lets out: the joined thread's remaining callbacks; and, for a
+browser whose `_async_cancel` already ran (only possible after D30 left it in `Zeroconf.browsers`), the failing
+`assert self._query_sender_task is not None` of the second `_async_cancel`, inside the loop -/
+def syncCancelOuts (bs : List Browser) : List Out :=
+  bs.flatMap (fun b => if b.zcTracked then (if b.cancelled then [Out.loopError] else List.replicate (if cancelJoins then b.queued else 0) Out.callback) else [])
+
+/-- is the calling thread the callback thread of a browser that `_close()` will try to join? (D30) -/
+def selfJoin (h : Host) (caller : Option Nat) : Bool :=
+  match caller with
+  | none => false
+  | some j => match h.browsers[j]? with
+    | some b => b.zcTracked && b.threaded && !b.cancelled && cancelJoins && !Gen.Shutdown.thread_cancel_guards_self_join
+    | none => false
+
+/-- `Zeroconf._close()`: `if self.done: return`; `remove_all_service_listeners()`; `self.done = True` -/
+def zcClose (h : Host) : Host × List Out :=
+  if Gen.Shutdown.close_skipped h.done then (h, [])
+  else if Gen.Shutdown.close_removes_service_listeners && Gen.Shutdown.remove_listener_cancels then
+    ({ h with browsers := h.browsers.map (fun b => if b.zcTracked then syncCancel b else b),
+              done := Gen.Shutdown.close_sets_done || h.done }, syncCancelOuts h.browsers)
+  else ({ h with done := Gen.Shutdown.close_sets_done || h.done }, [])
 
 /-- park one more truncated query: for timer `i` if armed, else under a new timer -/
 def deferOne (tcs : List Nat) (i : Nat) : List Nat :=
@@ -170,7 +256,11 @@ def cleanupAfterClose (armed : Bool) : Bool := if Gen.Shutdown.engine_close_canc
 
 /-- `_async_shutdown`: every transport gets `close()` (translated: the call is there, and it is not `abort()`) -/
 def transportsAfterShutdown (closed : Bool) : Bool :=
-  if Gen.Shutdown.shutdown_closes_transports && !Gen.Shutdown.shutdown_aborts_transports then true else closed
+  if Gen.Shutdown.engine_async_close_shuts_down && Gen.Shutdown.shutdown_closes_transports && !Gen.Shutdown.shutdown_aborts_transports then true else closed
+
+/-- `_async_shutdown`: `running_event.clear()` -/
+def runningAfterShutdown (running : Bool) : Bool :=
+  if Gen.Shutdown.engine_async_close_shuts_down && Gen.Shutdown.engine_shutdown_clears_running then false else running
 
 /-- `AsyncListener.connection_lost`: does nothing (translated: empty body); anything else is modelled as the worst
 case for the timers — the deferred packets are dropped, the timers stay -/
@@ -191,6 +281,18 @@ def closeBody (h : Host) (sync : Bool) : Host × List Out × CStage :=
    if h.registry = 0 then [] else gated h [.goodbye],
    .unregistering (if h.registry = 0 then 0 else moreGoodbyes))
 
+/-- the order of the four steps of `Zeroconf.close()` in the source is the order of the stages here
+(`unregister_all_services()`, `_close()`, `engine.close()`, `_shutdown_threads()`); a tree that calls them in another
+order is not what `closeCall true` … `closeThreadsStop` describe, and the model then refuses sync closes -/
+def syncOrderOk : Bool :=
+  Gen.Shutdown.sync_close_unregisters_before_done && Gen.Shutdown.sync_close_done_before_engine_close
+    && Gen.Shutdown.sync_close_engine_close_before_threads && Gen.Shutdown.async_close_sets_done_first
+
+/-- does sync `close()` from a non-loop thread send the goodbyes?  only while the loop runs (and the caller is not on
+the instance's own loop: `sync_close_skips_goodbyes false`) -/
+def syncUnregisters (loopRunning : Bool) : Bool :=
+  Gen.Shutdown.sync_close_unregisters_if_loop_running loopRunning && !Gen.Shutdown.sync_close_skips_goodbyes false
+
 /-- does a close that was parked in `wait_for(async_wait_for_start(), 1)` and is woken by the start-up event hand
 `NotRunningException` to its caller?  `async_wait_for_start` raises it when the event is no longer set or the
 instance is done (another close got there first); `async_close` lets it escape unless its `contextlib.suppress(...)`
@@ -203,7 +305,8 @@ def step (h : Host) : Block → Option (Host × List Out)
   | .recv sends queued defer updates deferAt =>
     -- a closed transport delivers nothing
     if h.transportsClosed then none
-    else some ({ h with outq := h.outq + queued, tcs := if defer then deferOne h.tcs deferAt else h.tcs },
+    else some ({ h with outq := h.outq + queued, tcs := if defer then deferOne h.tcs deferAt else h.tcs,
+                        browsers := enqueue h.browsers updates },
                gated h (List.replicate sends .send) ++ notify h updates)
   | .outqFire ready =>
     if h.outq = 0 then none
@@ -225,7 +328,7 @@ def step (h : Host) : Block → Option (Host × List Out)
         some ({ h with browsers := setTimer h.browsers i false }, [])
       else some (h, gated h (List.replicate queries .send))
   | .cleanupFire expired =>
-    if !h.cleanupArmed then none else some (h, notify h expired)
+    if !h.cleanupArmed then none else some ({ h with browsers := enqueue h.browsers expired }, notify h expired)
   | .probeStep last =>
     if h.probing = 0 then none
     else some (if last then { h with probing := h.probing - 1, registry := h.registry + 1, announcing := h.announcing + 1 } else h,
@@ -245,11 +348,30 @@ def step (h : Host) : Block → Option (Host × List Out)
     else match k with
       | .register => some ({ h with probing := h.probing + 1 }, [])
       | .lookup => some ({ h with lookups := h.lookups + 1 }, [])
-  | .apiBrowse tracked replay =>
-    some ({ h with browsers := h.browsers ++ [⟨tracked, false, !h.done && h.running, true⟩] }, List.replicate replay .callback)
+  | .apiBrowse tracked replay threaded zcTracked =>
+    -- the scheduler starts at once only on a started instance (`Zeroconf.started`, translated)
+    -- (`Zeroconf.browsers` holds thread-based browsers only, `AsyncZeroconf.async_browsers` loop-based ones only)
+    some ({ h with browsers := h.browsers ++ [⟨tracked && !zcTracked, false, Gen.Shutdown.started h.done true h.running, true,
+                                               threaded || zcTracked, zcTracked, if threaded || zcTracked then replay else 0⟩] },
+          if threaded || zcTracked then [] else List.replicate replay .callback)
+  | .browserThread i =>
+    match h.browsers[i]? with
+    | none => none
+    | some b =>
+      if !b.threaded || b.queued = 0 then none
+      -- `ServiceBrowser.run`: `if event is None: return` — the translated test says whether it also looks at a `done` flag
+      else if Gen.Shutdown.thread_run_stops false h.done b.cancelled then
+        some ({ h with browsers := h.browsers.set i { b with queued := 0 } }, [])
+      else some ({ h with browsers := h.browsers.set i { b with queued := b.queued - 1 } }, [.callback])
   | .closeCall sync =>
-    if !sync && Gen.Shutdown.close_waits_for_start h.done && !h.running then
+    -- `AsyncZeroconf` over an instance that runs its own loop thread: `async_close` would have to be awaited on a foreign
+    -- loop (unsupported use); a tree whose sync `close()` calls its steps in another order is not modelled
+    if (!sync && h.loopThread) || (sync && !syncOrderOk) then none
+    else if !sync && Gen.Shutdown.close_waits_for_start h.done && !h.running then
       some ({ h with closes := h.closes ++ [⟨sync, .waitingStart⟩] }, [])
+    else if sync && !syncUnregisters h.loopRunning then
+      -- the loop no longer runs (an earlier close stopped it): no goodbyes, the registry is left as it is
+      some ({ h with closes := h.closes ++ [⟨sync, .unregistering 0⟩] }, [])
     else
       let r := closeBody h sync
       some ({ r.1 with closes := h.closes ++ [⟨sync, r.2.2⟩] }, r.2.1)
@@ -270,21 +392,54 @@ def step (h : Host) : Block → Option (Host × List Out)
     match h.closes[i]? with
     | some ⟨sync, .unregistering (k + 1)⟩ => some (h.setStage i sync (.unregistering k), gated h [.goodbye])
     | _ => none
-  | .closeMarkDone i =>
+  | .closeMarkDone i caller =>
     match h.closes[i]? with
-    | some ⟨true, .unregistering 0⟩ => some ({ h.setStage i true .doneSet with done := true }, [])
+    | some ⟨true, .unregistering 0⟩ =>
+      if !Gen.Shutdown.close_skipped h.done && selfJoin h caller then
+        -- D30: `remove_all_service_listeners()` reaches the browser whose thread we are on: sentinel queued, `_async_cancel`
+        -- scheduled (it runs on the loop), `join()` raises; `del self.browsers[...]` and `self.done = True` are not reached
+        some ({ h.setStage i true .aborted with
+                  browsers := h.browsers.mapIdx (fun j b => if some j = caller then asyncCancel b else b) }, [.raised .runtimeError])
+      else
+        let r := zcClose h
+        some (r.1.setStage i true .doneSet, r.2)
     | _ => none
   | .closeShutdown i =>
     match h.closes[i]? with
     | some ⟨false, .unregistering 0⟩ =>
-      some ({ h.setStage i false .shutdown with
-               done := true, running := false, transportsClosed := transportsAfterShutdown h.transportsClosed }, [])
+      let r := zcClose h
+      some ({ r.1.setStage i false .shutdown with
+               running := runningAfterShutdown h.running, transportsClosed := transportsAfterShutdown h.transportsClosed }, r.2)
     | some ⟨true, .doneSet⟩ =>
-      some ({ h.setStage i true .shutdown with running := false, transportsClosed := transportsAfterShutdown h.transportsClosed }, [])
+      -- `AsyncEngine.close()`, the caller being on a non-loop thread (`engine_close_on_own_loop false`)
+      if Gen.Shutdown.engine_close_on_own_loop false then
+        some ({ h.setStage i true .engineClosed with
+                 running := runningAfterShutdown h.running, transportsClosed := transportsAfterShutdown h.transportsClosed }, [])
+      else if Gen.Shutdown.engine_close_skipped h.loopRunning then some (h.setStage i true .engineClosed, [])
+      else if Gen.Shutdown.engine_close_awaits_async_close then
+        some ({ h.setStage i true .shutdown with
+                 running := runningAfterShutdown h.running, transportsClosed := transportsAfterShutdown h.transportsClosed }, [])
+      -- anything else it may start on the loop is not waited for: nothing is known to be closed or cancelled when `close()` goes on
+      else some (h.setStage i true .engineClosed, [])
     | _ => none
   | .closeFinish i =>
     match h.closes[i]? with
-    | some ⟨sync, .shutdown⟩ => some ({ h.setStage i sync .returned with cleanupArmed := cleanupAfterClose h.cleanupArmed }, [])
+    | some ⟨false, .shutdown⟩ => some ({ h.setStage i false .returned with cleanupArmed := cleanupAfterClose h.cleanupArmed }, [])
+    | some ⟨true, .shutdown⟩ => some ({ h.setStage i true .engineClosed with cleanupArmed := cleanupAfterClose h.cleanupArmed }, [])
+    | _ => none
+  | .closeThreadsCheck i =>
+    match h.closes[i]? with
+    | some ⟨true, .engineClosed⟩ =>
+      some (h.setStage i true (if Gen.Shutdown.shutdown_threads_skipped h.loopThread then .returned else .stopping), [])
+    | _ => none
+  | .closeThreadsStop i =>
+    match h.closes[i]? with
+    | some ⟨true, .stopping⟩ =>
+      -- `shutdown_loop`: `run_coroutine_threadsafe(...).result(timeout)` on a loop that no longer runs never completes
+      if !h.loopRunning then some (h.setStage i true .aborted, [.raised .timeout])
+      else some ({ h.setStage i true .returned with
+                    loopRunning := if Gen.Shutdown.shutdown_threads_stops_loop then false else h.loopRunning,
+                    loopThread := if Gen.Shutdown.shutdown_threads_forgets_thread then false else h.loopThread }, [])
     | _ => none
   | .closeAbort i =>
     match h.closes[i]? with
@@ -305,13 +460,21 @@ def Closed (h : Host) : Prop :=
 
 instance (h : Host) : Decidable (Closed h) := by unfold Closed; infer_instance
 
+/-- the instance is shut: `done`, every transport closed, the cleanup timer cancelled -/
+def Shut (h : Host) : Prop := h.done = true ∧ h.transportsClosed = true ∧ h.cleanupArmed = false
+
+instance (h : Host) : Decidable (Shut h) := by unfold Shut; infer_instance
+
 /-- the flags agree with the program counters of the closes in progress: a close that got as far as the
-shutdown has set `done` and closed the transports; one that returned has also cancelled the cleanup timer -/
+shutdown has set `done` and closed the transports; one that is back from the engine's close (sync: `engineClosed`,
+`stopping`) or has returned has also cancelled the cleanup timer; and **a loop that no longer runs was stopped by a
+close that had shut the instance** -/
 def WF (h : Host) : Prop :=
-  ∀ c ∈ h.closes,
+  (∀ c ∈ h.closes,
     (c.stage = .doneSet → h.done = true) ∧
     (c.stage = .shutdown → h.done = true ∧ h.transportsClosed = true) ∧
-    (c.stage = .returned → h.done = true ∧ h.transportsClosed = true ∧ h.cleanupArmed = false)
+    (c.stage = .engineClosed ∨ c.stage = .stopping ∨ c.stage = .returned → Shut h)) ∧
+  (h.loopRunning = false → Shut h)
 
 /-- every armed deferred-TC timer has something to answer — the flag-machine form of C16's `TimerInv`
 ("a TC timer is armed only for an address that has a deferred packet", `C16_timer_invariant`) -/
@@ -319,13 +482,44 @@ def TcInv (h : Host) : Prop := ∀ n ∈ h.tcs, 0 < n
 
 instance (h : Host) : Decidable (TcInv h) := by unfold TcInv; infer_instance
 
+/-- no browser of `Zeroconf.browsers` has been through `_async_cancel` yet — what keeps `_close()` from running
+`_async_cancel` twice (its `assert` would fail inside the loop).  Broken only by the aborted `_close()` of finding D30. -/
+def ZcInv (h : Host) : Prop := ∀ b ∈ h.browsers, b.zcTracked = true → b.cancelled = false ∧ b.tracked = false
+
+instance (h : Host) : Decidable (ZcInv h) := by unfold ZcInv; infer_instance
+
+/-- a loop thread that has not been forgotten is still running its loop, and at most one sync close is about to stop it —
+what keeps `shutdown_loop` from timing out.  Broken only by overlapping sync closes (finding D32). -/
+def LoopInv' (loopThread loopRunning : Bool) (closes : List Close) : Prop :=
+  (loopThread = true → loopRunning = true) ∧
+  (∀ (i : Nat) (c : Close), closes[i]? = some c → c.stage = .stopping → loopRunning = true) ∧
+  (∀ (i j : Nat) (ci cj : Close), closes[i]? = some ci → closes[j]? = some cj → ci.stage = .stopping → cj.stage = .stopping → i = j)
+
+def LoopInv (h : Host) : Prop := LoopInv' h.loopThread h.loopRunning h.closes
+
+/-- the D32 class: a sync close enters `_shutdown_threads()` while another one is between its `if not self._loop_thread`
+test and `shutdown_loop()` -/
+def Block.overlapsStop (h : Host) : Block → Bool
+  | .closeThreadsCheck _ => h.closes.any Close.isStopping
+  | _ => false
+
+/-- the D30 class: `_close()` runs on the callback thread of a live browser of `Zeroconf.browsers` -/
+def Block.selfJoins (h : Host) : Block → Bool
+  | .closeMarkDone _ c => !Gen.Shutdown.close_skipped h.done && selfJoin h c
+  | _ => false
+
+/-- nothing is waiting in the queue of a thread-based browser -/
+def QueuesEmpty (h : Host) : Prop := ∀ b ∈ h.browsers, b.threaded = true → b.queued = 0
+
+instance (h : Host) : Decidable (QueuesEmpty h) := by unfold QueuesEmpty; infer_instance
+
 def isLoopError : Out → Bool
   | .loopError => true
   | _ => false
 
 /-- creating a browser is an API call that calls back by itself (cache replay), closed or not -/
 def Block.isBrowse : Block → Bool
-  | .apiBrowse _ _ => true
+  | .apiBrowse _ _ _ _ => true
   | _ => false
 
 def isGoodbye : Out → Bool
@@ -344,8 +538,8 @@ close calls and their goodbyes included — except a completing registration, cl
 close reaching the point where it sets `done` -/
 def Block.mid : Block → Bool
   | .probeStep true => false
-  | .closeShutdown _ | .closeMarkDone _ => false
-  | .closeWake i _ | .closeGoodbye i | .closeFinish i | .closeAbort i => i != 0
+  | .closeShutdown _ | .closeMarkDone _ _ => false
+  | .closeWake i _ | .closeGoodbye i | .closeFinish i | .closeAbort i | .closeThreadsCheck i | .closeThreadsStop i => i != 0
   | _ => true
 
 /-- interleavable around close `0`'s goodbyes: `mid`, and not a goodbye of any close -/
@@ -353,28 +547,34 @@ def Block.mid3 (b : Block) : Bool := b.mid && (match b with | .closeGoodbye _ =>
 
 /-- the close call a block is a step of -/
 def Block.closeIndex : Block → Option Nat
-  | .closeWake i _ | .closeGoodbye i | .closeMarkDone i | .closeShutdown i | .closeFinish i | .closeAbort i => some i
+  | .closeWake i _ | .closeGoodbye i | .closeMarkDone i _ | .closeShutdown i | .closeFinish i | .closeAbort i
+  | .closeThreadsCheck i | .closeThreadsStop i => some i
   | _ => none
 
 /-- progress measure of one close call -/
 def Close.rank (c : Close) : Nat :=
   match c.stage with
-  | .waitingStart => 10
-  | .unregistering n => n + 4
-  | .doneSet => 3
-  | .shutdown => 2
+  | .waitingStart => 12
+  | .unregistering n => n + 6
+  | .doneSet => 5
+  | .shutdown => 4
+  | .engineClosed => 3
+  | .stopping => 2
   | .returned | .aborted => 0
 
-/-- the block a close call performs next (a parked call is woken at the latest by its own timeout).  `none`: the call
-has ended — or the combination cannot arise (a sync close never parks, an async one never is in `doneSet`). -/
+/-- the block a close call performs next (a parked call is woken at the latest by its own timeout; a sync call is
+taken to come from a thread that is no browser's).  `none`: the call has ended — or the combination cannot arise (a
+sync close never parks, an async one never is in `doneSet` / `engineClosed` / `stopping`). -/
 def Close.next (c : Close) (k : Nat) : Option Block :=
   match c.sync, c.stage with
   | false, .waitingStart => some (.closeWake k true)
   | _, .unregistering (_ + 1) => some (.closeGoodbye k)
-  | true, .unregistering 0 => some (.closeMarkDone k)
+  | true, .unregistering 0 => some (.closeMarkDone k none)
   | false, .unregistering 0 => some (.closeShutdown k)
   | true, .doneSet => some (.closeShutdown k)
   | _, .shutdown => some (.closeFinish k)
+  | true, .engineClosed => some (.closeThreadsCheck k)
+  | true, .stopping => some (.closeThreadsStop k)
   | _, _ => none
 
 /-! ### the acceptors used by the correspondence harness -/
@@ -385,7 +585,8 @@ inductive Kind where
 
 def hostOfFlags (done tclosed cleanup afterClose : Bool) (ncb : Nat) : Host :=
   { done := done, running := !tclosed, transportsClosed := tclosed, cleanupArmed := cleanup, registry := 1,
-    browsers := ⟨false, false, true, true⟩ :: List.replicate (ncb - 1) ⟨false, false, false, true⟩,
+    browsers := { tracked := false, cancelled := false, timer := true, listening := true } ::
+      List.replicate (ncb - 1) { tracked := false, cancelled := false, timer := false, listening := true },
     outq := 1, tcs := [1], lookups := 0, probing := 1, announcing := 1,
     closes := if afterClose then [⟨false, .returned⟩] else [] }
 
@@ -461,5 +662,69 @@ def replayCloses (h : Host) : List CloseStepObs → List String
         else if h1.flags != ob.after then "reject:flags"
         else "ok"
       verdict :: replayCloses h1 rest
+
+/-! ### sync closes on real threads (`harness/c17_threads.py`)
+
+What the harness reads off the real objects around **each of the four calls** `Zeroconf.close()` makes
+(`unregister_all_services`, `_close`, `engine.close`, `_shutdown_threads` — wrapped at class level): the state before,
+what was transmitted / called back / raised inside, the state after.  The model blocks the call amounts to are
+determined by the call; the model must enable them, raise exactly when the implementation raised and leave exactly
+the observed state. -/
+
+/-- what is read off a real instance -/
+structure SyncSnap where
+  done : Bool
+  tclosed : Bool
+  cleanup : Bool
+  loopThread : Bool
+  loopRunning : Bool
+  registry : Nat
+  /-- `len(Zeroconf.browsers)` -/
+  zcBrowsers : Nat
+  /-- how many of them have been through `_async_cancel` (`browser.done`) -/
+  zcCancelled : Nat
+  deriving DecidableEq, Repr
+
+def Host.syncSnap (h : Host) : SyncSnap :=
+  ⟨h.done, h.transportsClosed, h.cleanupArmed, h.loopThread, h.loopRunning, h.registry,
+   (h.browsers.filter (·.zcTracked)).length, (h.browsers.filter (fun b => b.zcTracked && b.cancelled)).length⟩
+
+/-- a host with exactly the observed state: the thread-based browsers of `Zeroconf.browsers`, the cancelled ones first -/
+def hostOfSnap (s : SyncSnap) (closes : List Close) : Host :=
+  { done := s.done, running := !s.tclosed, transportsClosed := s.tclosed, cleanupArmed := s.cleanup, registry := s.registry,
+    browsers := List.replicate s.zcCancelled { tracked := false, cancelled := true, timer := false, listening := false,
+                                               threaded := true, zcTracked := true, queued := 0 } ++
+      List.replicate (s.zcBrowsers - s.zcCancelled) { tracked := false, cancelled := false, timer := true, listening := true,
+                                                      threaded := true, zcTracked := true, queued := 0 },
+    outq := 0, tcs := [], lookups := 0, probing := 0, announcing := 0, closes := closes,
+    loopThread := s.loopThread, loopRunning := s.loopRunning }
+
+/-- the four calls of `Zeroconf.close()` -/
+inductive SyncCall where
+  | unregister | markDone (caller : Option Nat) | engineClose | threads
+  deriving DecidableEq, Repr
+
+/-- the stage a sync close is in when it enters the call, and the model blocks the call amounts to when it runs to its end -/
+def SyncCall.entry (before : SyncSnap) : SyncCall → CStage × List Block
+  | .unregister => (.aborted, [.closeCall true] ++ (if syncUnregisters before.loopRunning && before.registry != 0 then [.closeGoodbye 0, .closeGoodbye 0] else []))
+  | .markDone c => (.unregistering 0, [.closeMarkDone 0 c])
+  | .engineClose => (.doneSet, [.closeShutdown 0] ++
+      (if !Gen.Shutdown.engine_close_skipped before.loopRunning && Gen.Shutdown.engine_close_awaits_async_close then [.closeFinish 0] else []))
+  | .threads => (.engineClosed, [.closeThreadsCheck 0] ++ (if Gen.Shutdown.shutdown_threads_skipped before.loopThread then [] else [.closeThreadsStop 0]))
+
+/-- judge one observed call: `goodbyes` datagrams with TTL-0 records transmitted inside it, `raised` what it raised -/
+def acceptSyncCall (call : SyncCall) (before after : SyncSnap) (goodbyes : Nat) (raised : Option Exc) : String :=
+  let (st, blocks) := call.entry before
+  let h0 := hostOfSnap before (match call with | .unregister => [] | _ => [⟨true, st⟩])
+  match run h0 blocks with
+  | none => "reject:not-enabled"
+  | some (h1, out) =>
+    let raisedNow := out.filterMap (fun o => match o with | .raised e => some e | _ => none)
+    if raisedNow != raised.toList then "reject:raise"
+    else if count isGoodbye out != goodbyes then "reject:goodbyes"
+    else if h1.syncSnap != after then
+      let m := h1.syncSnap
+      s!"reject:state:model:done={m.done},tclosed={m.tclosed},cleanup={m.cleanup},loopThread={m.loopThread},loopRunning={m.loopRunning},registry={m.registry},zcBrowsers={m.zcBrowsers},zcCancelled={m.zcCancelled}"
+    else "ok"
 
 end Zc.Shutdown
